@@ -669,9 +669,20 @@ def _fail(clause, detail, **sig):
     return {"clause": clause, "detail": detail, "signature": s}
 
 
+def _inside(s):
+    """the snapshot without the connections that leave the pickled composite: a copy cannot have them (the
+    partner is not in the pickle), exactly as a child on its own comes back without its siblings"""
+    t = dict(s)
+    for side in ("di", "do", "si", "so"):
+        t[side] = [[k, [x for x in l if x[2]]] for k, l in s[side]]
+        t[side] = [[k, l] for k, l in t[side] if l]
+    t["children"] = [_inside(c) for c in s["children"]]
+    return t
+
+
 def _compare(before, after, child_alone):
     """first clause of the statement that `after` violates w.r.t. `before` (None = identical)"""
-    B = dict(_walk(before))
+    B = dict(_walk(_inside(before)))
     A = dict(_walk(after))
     if list(B) != list(A):
         return _fail("children", f"labels/nesting differ: {list(B)} vs {list(A)}")
@@ -946,6 +957,7 @@ def _mk_case(rng, tier, mode):
     r = rng.random()
     if state == "midrun":
         opts["snap"] = rng.randint(0, depth)
+        opts["p_exec"] = 0.0  # nothing may move between the snapshot and the pickle taken inside the run
     if r < 0.10:
         root = {"kind": "wf", "label": "w", "spec": _cyclic_spec(rng, rng.randint(2, 4))}
         if state == "midrun":
@@ -1020,6 +1032,7 @@ def _mk_case(rng, tier, mode):
             case["foreign"] = {"label": rng.choice(["zz", root["spec"]["children"][0]["label"]]),
                                "dst": tgt["label"], "dst_in": "c"}
             case["target"] = []
+            case.pop("rerun", None)  # the copy has lost the outside feed: its re-run is another computation
     return case
 
 
